@@ -17,6 +17,7 @@ import IocProofs.Lemmas.SemInit
 import IocProofs.Lemmas.SemDelegate
 import IocProofs.Lemmas.OrderSupply
 import IocProofs.Lemmas.SemSupply
+import IocProofs.Lemmas.SemPrepare
 namespace Ioc.C12
 open Ioc Ioc.Order
 
@@ -626,5 +627,42 @@ theorem C12_code_InvokeBeanFactoryPostProcessors (sort : (Nat → Nat → Bool) 
 /-- non-vacuity: processors 1 (lazy) and 2 (created, the created instance 7 is registered) in sorted order [2, 1] -/
 example : (Sem.invokeModel (fun _ => false) false [2, 1] (fun p => p == 1) (fun p => if p == 2 then some 7 else none)
     (fun _ => true) [9] [1, 2] []).2.cpp = [Sem.encP 7, Sem.encP 1] := by rfl
+
+/-! ### defaultFactory.PrepareComponents and RegisterComponentPostProcessors, REGENERATED (interpretation Ioc.SemPrepare) -/
+section prepare
+open Ioc.Go Ioc.Sem
+
+/-- PrepareComponents: the singletons in the order the registry enumerates them, each recorded in a FRESH
+    `registeredComponents` map and classified; a failing `GetSingleton` ends the call with its error BEFORE the delegate is
+    invoked; otherwise the delegate gets exactly the factory post-processors found and its error is returned as it is -/
+theorem C12_code_PrepareComponents (p : PCP) (w : PCW) :
+    run (pcPrims p) Progs.factory_PrepareComponents [] w =
+      (let r := stepLoop (pcStep p) p.names [] { w with regComps := [] }
+       match r.2.2 with
+       | some v => some (v, r.2.1)
+       | none => some (match p.invokeErr r.1 with | none => .nil | some e => .str e, { r.2.1 with invoked := some r.1 })) :=
+  prepareComponents_sem p w
+
+/-- … and when every singleton can be fetched, the component post-processors, the definition-registry post-processors and the
+    factory post-processors are the singletons of each kind IN THE ENUMERATION ORDER (a singleton of several kinds is in each
+    list): the order contract of the later stages starts from this order and nothing else -/
+theorem C12_code_PrepareComponents_order (p : PCP) (idOf : String → Nat) (names : List String) (fpp : List Nat) (w : PCW)
+    (h : ∀ n ∈ names, p.single n = .ok (idOf n)) :
+    (stepLoop (pcStep p) names fpp w).1 = fpp ++ (names.map idOf).filter p.isCFPP ∧
+    (stepLoop (pcStep p) names fpp w).2.2 = none ∧
+    (stepLoop (pcStep p) names fpp w).2.1.defPPs = w.defPPs ++ (names.map idOf).filter p.isDRPP ∧
+    (stepLoop (pcStep p) names fpp w).2.1.beanPPs =
+      w.beanPPs ++ (names.filter (fun n => p.isCPP (idOf n))).map (fun n => (idOf n, n)) ∧
+    (stepLoop (pcStep p) names fpp w).2.1.invoked = w.invoked :=
+  pcStep_loop_ok p idOf names fpp w h
+
+/-- RegisterComponentPostProcessors: the processor is appended to the raw list whatever it is; the type switch marks an
+    instantiation-aware processor, and a destruction-aware one only when it is not instantiation-aware (first matching clause) -/
+theorem C12_code_RegisterComponentPostProcessors (isInst isDestr : Nat → Bool) (i : Nat) (n : String) (w : RCW) :
+    run (rcPrims isInst isDestr) Progs.delegate_RegisterComponentPostProcessors [.ref i 0, .str n] w =
+      some (.tuple [], { hasInst := w.hasInst || isInst i, hasDestr := w.hasDestr || (!isInst i && isDestr i), raw := w.raw ++ [i] }) :=
+  registerCPP_sem isInst isDestr i n w
+
+end prepare
 
 end Ioc.C12
